@@ -35,6 +35,8 @@ pub fn multi_file_project(n: usize) -> Project {
             1 => format!("src/a/f{}.rs", i),
             _ => format!("src/a/b/f{}.rs", i),
         };
+        // from four files on, two of them share their file name and depth (src/x/mod.rs, src/y/mod.rs)
+        let path = if n >= 4 && i >= n - 2 { format!("src/{}/mod.rs", if i == n - 1 { "x" } else { "y" }) } else { path };
         files.push((path, s));
     }
     Project { files, links: vec![] }
@@ -286,7 +288,8 @@ fn write_cfg(root: &Path, cfg: &FileCfg, tauri_conf: bool) {
 
 fn force_case(cache: CacheState, file_force: Option<bool>, flag: bool, seam: Seam, zod: bool, tauri_conf: bool) -> (Option<Violation>, String) {
     let project = multi_file_project(2);
-    let mut cfg = FileCfg { zod, ..Default::default() };
+    // (the plain-mode half of the matrix also asks for the dependency visualisation)
+    let mut cfg = FileCfg { zod, visualize_deps: !zod, ..Default::default() };
     let sb = run::Sandbox::new();
     sbx::write_sources(&sb.root, &project, &cfg);
     write_cfg(&sb.root, &cfg, tauri_conf);
@@ -374,6 +377,16 @@ fn force_case(cache: CacheState, file_force: Option<bool>, flag: bool, seam: Sea
         if !t.is_empty() {
             return (Some(mk("needless-rewrite", format!("no force, matching cache, yet: {}", t.join(", ")))), outcome);
         }
+    }
+    // whatever the second run was, a third one without force and without any change rewrites nothing
+    cfg.force = None;
+    write_cfg(&sb.root, &cfg, tauri_conf);
+    set_mtimes_past(&od);
+    let before3 = stat_dir(&od);
+    let r3 = sbx::run_generate(&sb.root, seam, &RunOpts { discover_config: tauri_conf, ..Default::default() });
+    let t3 = touched(&before3, &stat_dir(&od));
+    if !r3.success() || !t3.is_empty() {
+        return (Some(mk("needless-rewrite", format!("after the {} run an unchanged non-forced run -> {}; touched: {}", if force_in_effect { "forced" } else { "second" }, r3.status_string(), t3.join(", ")))), format!("{}|third-touched={}", outcome, t3.len()));
     }
     (None, outcome)
 }
@@ -537,7 +550,7 @@ pub fn run(tier: Tier) -> CheckResult {
         {"kind":"force","cache":"Matching","file_force":false,"flag":true,"seam":"cli"},
         {"kind":"force","cache":"Corrupt","file_force":true,"flag":false,"seam":"build"}
     ]));
-    res.coverage.set("rule", format!("re-run: projects of 1..{} files x 0..{} type mappings x modes x seams (plus projects in which two files define a type of the same name, re-run under 3x as many hash seeds; and projects generated with the dependency visualisation); first run under the identity order, then one unchanged non-forced run of the real binary/build path per iteration order of every hook site the second process consults (full product), with all output mtimes set to a fixed past instant beforehand; oracle: no file's bytes or mtime change, none created or deleted. Since the property requires the cache decision to be independent of the order, identity x all-orders is equivalent to all pairs. Force matrix: cache state x file force x flag x seam x mode x configuration source (standalone typegen.json / plugins.typegen of a discovered tauri.conf.json). A re-run case is non-trivial when the second process consulted a hook site with >= 2 elements.", max_files, max_map));
+    res.coverage.set("rule", format!("re-run: projects of 1..{} files x 0..{} type mappings x modes x seams (plus projects in which two files define a type of the same name, re-run under 3x as many hash seeds; and projects generated with the dependency visualisation); first run under the identity order, then one unchanged non-forced run of the real binary/build path per iteration order of every hook site the second process consults (full product), with all output mtimes set to a fixed past instant beforehand; oracle: no file's bytes or mtime change, none created or deleted. Since the property requires the cache decision to be independent of the order, identity x all-orders is equivalent to all pairs. Force matrix (each case followed by one more unchanged non-forced run that must touch nothing; half of it with the dependency visualisation): cache state x file force x flag x seam x mode x configuration source (standalone typegen.json / plugins.typegen of a discovered tauri.conf.json). A re-run case is non-trivial when the second process consulted a hook site with >= 2 elements.", max_files, max_map));
     res.assumptions = vec![
         "hash-iteration orders are owned through the verif-hooks site S1 (file list), explored as a complete product; every other hash iteration of the second process is owned through its hash seeds (getrandom shim, seeds 0..8 quick / 0..24 thorough, three times as many for the duplicate-type-name projects): a deterministic, replayable seed alphabet, not a complete order product".into(),
     ];
